@@ -986,7 +986,14 @@ func runC03(r *Run) error {
 							}
 						}
 					}
-					x, signer, key, val, err := h.forge(kind, me, 0, next, t)
+					// whose identity is forged: the creator's, or the VICTIM's own when it is a writer
+					// (a replica must not trust a copy of its own identity block either)
+					wv := 0
+					if isWriter(victim) && !cfg.wild && r.Rng.Intn(2) == 0 {
+						wv = victim
+						r.Count("forged-identity-of-victim")
+					}
+					x, signer, key, val, err := h.forge(kind, me, wv, next, t)
 					if err != nil {
 						return fmt.Errorf("forge %s: %w", kind, err)
 					}
